@@ -433,11 +433,20 @@ pub fn run_trie(prop: &str, checks: u32, prefix_text: &str, max_depth: usize, la
 
 /// All 5,040 distinct orders of Gold's eight non-rabbit pieces (e m h h d d c c) on a2..h2 with rabbits on a1..h1,
 /// and the same 5,040 orders on a1..h1 with the rabbits in front on a2..h2.
+/// rabbits on: rank 2; rank 1; files a-d; files e-h; files a, c, e, g; a checkerboard; 2x2 blocks
+const RABBIT_MASKS: [u32; 7] = [0x00ff, 0xff00, 0x0f0f, 0xf0f0, 0x5555, 0xaa55, 0xcc33];
+
 pub fn gold_major_orders() -> Vec<String> {
     fn rec(left: &mut [u8; 5], cur: &mut String, out: &mut Vec<String>) {
         if cur.len() == 8 {
-            out.push(format!("{}rrrrrrrr", cur));
-            out.push(format!("rrrrrrrr{}", cur));
+            // where the eight rabbits stand among the 16 home squares (bit i = i-th square of the placement order a2..h2,
+            // a1..h1): all in front, all behind, and five mixed patterns in which files hold two rabbits / two major
+            // pieces - over the 5,040 orders every pair of major types ends up doubled on a file
+            for mask in RABBIT_MASKS.iter() {
+                let mut it = cur.chars();
+                let s: String = (0..16).map(|i| if mask >> i & 1 == 1 { 'r' } else { it.next().unwrap() }).collect();
+                out.push(s);
+            }
             return;
         }
         let letters = ['c', 'd', 'h', 'm', 'e'];
@@ -461,7 +470,7 @@ pub fn gold_major_orders() -> Vec<String> {
 pub fn run_product(prop: &str, checks: u32, depth: usize) -> FamilyResult {
     let t0 = Instant::now();
     let orders = gold_major_orders();
-    let family = format!("E3 product: all {} arrangements of Gold (every order of its 8 major pieces on one home rank, rabbits on the other; both ways round) x (every Silver placement prefix of length <= {} + two complete Silver orders down to the start of play)", orders.len(), depth);
+    let family = format!("E3 product: all {} arrangements of Gold (every order of its 8 major pieces x 7 rabbit patterns: front rank, back rank, files a-d, files e-h, alternate files, checkerboard, 2x2 blocks) x (every Silver placement prefix of length <= {} + two complete Silver orders down to the start of play)", orders.len(), depth);
     let fam2 = family.clone();
     let stats = orders
         .par_iter()
